@@ -1,6 +1,7 @@
 import Wayfind.Proofs.Unique5
 import Wayfind.Proofs.RoutesNodup
 import Wayfind.Generated.Facts
+import Wayfind.Proofs.DrawText2
 
 /-! # C15 — the printed tree is the canonical compressed radix tree of the live routes
 On every router reachable through the API the tree is **canonical** (`C15_tree_canonical`; the predicates are
@@ -13,7 +14,8 @@ hereditary, i.e. they hold at every node of the tree):
   sorted** (by their first bytes);
 * `Node.Cmp` — **maximal compression**: no literal child is an unmarked node whose only child is one literal node
   (`C15_no_compressible_literal_child` spells the predicate out at the root's literal children).
-`Display` prints the seven child vectors in kind order (generated obligation) and, inside a vector, in stored order; it
+`Display` prints the seven child vectors in kind order (the order in which the source mentions them is a tripwire of the
+check; the printed order is compared on every drawing) and, inside a vector, in stored order; it
 depends on the tree only through its skeleton — labels, order, marks (`C15_display_sees_skeleton`).
 **The drawing lists exactly the live routes** (`C15_marked_paths_are_live_routes`): the label paths from the root to the
 marked nodes, literal labels concatenated, are exactly the part lists of the expansions of the live templates.
@@ -84,5 +86,26 @@ theorem C15_canonical_is_unique (n1 n2 : Node) (c1 : Canon n1) (c2 : Canon n2)
     Node.skel n1 = Node.skel n2 ∧ Node.display n1 = Node.display n2 :=
   ⟨Node.skel_unique n1 n2 c1 c2 h, display_eq_of_keyEq n1 n2 c1 c2 h⟩
 
-/-- generated obligation: `Display` prints the child vectors in the documented kind order -/
-theorem C15_display_kind_order : Generated.displayKindOrder = [0, 1, 2, 3, 4, 5, 6] := by decide
+/-! ## the printed text (fifth session)
+
+The clauses above are about the tree; these two are about the *text* `Display` prints for it. `parseLineC` is how a reader
+takes a printed line apart (indentation → depth, label, `[*]`); `markedTextsC` how the marked paths are read off the lines
+(labels of the nearest preceding lines of each smaller depth, then the line's own). Hypothesis `Node.drawable`: every label
+is non-empty, contains no `]`, and a top-level label does not start with an indentation or branch character — otherwise the
+text is ambiguous (a literal label may contain any byte). Labels are compared as printed (`state.key()`, i.e.
+`from_utf8_lossy` of the bytes); the byte-exact labels are the subject of the clauses above. Non-vacuity: `decide` cannot
+evaluate `String.fromUTF8?`, so the premise is evaluated by the driver on every model tree of every run and counted
+(`c15.drawable-model-tree`), and the same reader is the oracle applied to the implementation's output. -/
+
+/-- **Every printed line reads back as its node**: depth, label and mark of the nodes, in order. -/
+theorem C15_printed_lines_read_back (root : Node) (h : Node.drawable root = true) :
+    (Node.lines "" "" true true root).map (fun l => parseLineC l.toList) = (Node.dents 0 [] root).map some :=
+  root_lines_parse root h
+
+/-- **The marked paths read off the printed text are the routes of the tree**, each once and in order: concatenating the
+labels from the top down to each line marked `[*]` gives the rendered part list of every stored route (with
+`C15_marked_paths_are_live_routes`: of every live expansion). -/
+theorem C15_printed_marked_paths_are_routes (root : Node) (h : Node.drawable root = true) :
+    ∃ ds, (Node.lines "" "" true true root).map (fun l => parseLineC l.toList) = ds.map some ∧
+      markedTextsC ds = ((Node.routes root).filter (fun rt => !rt.parts.isEmpty)).map (fun rt => partsText rt.parts) :=
+  ⟨Node.dents 0 [] root, root_lines_parse root h, marked_texts_of_dents root h⟩
